@@ -56,7 +56,13 @@ PYFORMS = {
     # pipe alternative or following text brings further quotes)
     "esc_quote": "(%s, 'it\\'s')[0]",
     "esc_quote2": "('a\\'b' and %s)",
+    # attribute access on an object that has no such attribute and whose
+    # __getitem__ fails with something that is *not* a lookup error: the
+    # expression raises RuntimeError('bad-item') before the probe is reached
+    # (only generated where the option raising_forms asks for it)
+    "bad_item": "(bad.attr, %s)[1]",
 }
+RAISING_FORMS = {"bad_item": (RuntimeError, ("bad-item",))}
 
 
 def _ident(v):
@@ -78,6 +84,14 @@ class _Gone:
     pass
 
 
+class BadItem:
+    """No attributes to speak of, and item access fails - not with a
+    lookup error."""
+
+    def __getitem__(self, key):
+        raise RuntimeError("bad-item")
+
+
 def _dead_proxy():
     import weakref
     o = _Gone()
@@ -89,7 +103,7 @@ def _dead_proxy():
 # (zbig / zdead are never used by a template: they are render arguments
 # that an error message cannot show - an integer beyond the int -> str
 # conversion limit, a weak reference proxy whose referent is gone)
-RENDER_ARGS = {"zbig": 10 ** 5000, "zdead": _dead_proxy(),
+RENDER_ARGS = {"zbig": 10 ** 5000, "zdead": _dead_proxy(), "bad": BadItem(),
                "a": "A", "kw": "K", "n": "N",
                "dd": {"get": "G", "keys": "K", "items": "I", "x": 1,
                       "ident": _ident},
@@ -184,8 +198,11 @@ class Gen:
             # python sub-grammar around the probe: lambdas with star /
             # keyword-only parameters, a comprehension, and uses of render
             # arguments that carry the same names (a, kw, n)
-            return {"k": "pyform", "form": self.ch.pick(sorted(PYFORMS)),
-                    "e": p}
+            forms = [f for f in sorted(PYFORMS) if f not in RAISING_FORMS]
+            if self.o.get("raising_forms") and \
+                    self.ch.coin(self.o["raising_forms"]):
+                forms = sorted(RAISING_FORMS)
+            return {"k": "pyform", "form": self.ch.pick(forms), "e": p}
         return p
 
     def _retwin(self, e: dict) -> dict:
